@@ -82,6 +82,9 @@ def kind_of(t) -> Any:
                 return ("array", "any")
             if len(a) == 2 and a[1] is Ellipsis:
                 return ("array", kind_of(a[0]))
+            lay = _tuple_layout(a)
+            if lay is not None:
+                return ("array", "any", lay)
             return ("array", "any")
         if issubclass(o, collections.ChainMap):
             return ("array", ("object", kind_of(a[1]) if len(a) > 1 else "any"))
@@ -94,6 +97,83 @@ def kind_of(t) -> Any:
     except TypeError:
         pass
     return "any"
+
+
+def _tuple_layout(args):
+    """(prefix kinds, rest kind or None, suffix kinds) of a tuple layout with Unpack[...] members flattened."""
+    prefix, rest, suffix = [], None, []
+    for x in args:
+        inner = None
+        if typing.get_origin(x) is typing.Unpack:
+            inner = typing.get_args(x)[0]
+        elif getattr(x, "__unpacked__", False):
+            inner = x
+        if inner is not None:
+            ia = tuple(getattr(inner, "__args__", ()) or ())
+            io = getattr(inner, "__origin__", inner)
+            if not (isinstance(io, type) and issubclass(io, tuple)):
+                return None
+            if len(ia) == 2 and ia[1] is Ellipsis:
+                sub = ([], kind_of(ia[0]), [])
+            elif ia == ((),) or not ia:
+                sub = ([], None, [])
+            else:
+                sub = _tuple_layout(ia)
+                if sub is None:
+                    return None
+        elif x is Ellipsis:
+            return None
+        else:
+            sub = ([kind_of(x)], None, [])
+        sp, sr, ss = sub
+        if rest is None:
+            prefix += sp
+            if sr is not None:
+                rest = sr
+                suffix += ss
+            else:
+                prefix += ss
+        else:
+            if sr is not None:
+                return None  # two variable-length parts: rejected by the packer
+            suffix += sp + ss
+    return (prefix, rest, suffix)
+
+
+def _accepts_layout(schema: dict, lay) -> Optional[str]:
+    prefix, rest, suffix = lay
+    pi = schema.get("prefixItems") or []
+    items = schema.get("items")
+    lo = len(prefix) + len(suffix)
+    hi = None if rest is not None else lo
+    if isinstance(schema.get("minItems"), int) and schema["minItems"] > lo:
+        return f"minItems {schema['minItems']} exceeds the shortest serialized form ({lo} items)"
+    if isinstance(schema.get("maxItems"), int) and (hi is None or schema["maxItems"] < hi):
+        return f"maxItems {schema['maxItems']} is below the longest serialized form ({'unbounded' if hi is None else hi} items)"
+
+    def at(j):
+        if j < len(pi):
+            return pi[j]
+        return items if isinstance(items, dict) else None
+
+    for j, k in enumerate(prefix):
+        sc = at(j)
+        if sc is not None:
+            r = accepts(sc, k)
+            if r:
+                return f"item {j}: {r}"
+    span = max(len(pi), len(prefix)) - len(prefix) + len(suffix) + 1
+    for m in range(span):
+        j = len(prefix) + m
+        sc = at(j)
+        if sc is None:
+            continue
+        possible = ([rest] if rest is not None else []) + ([s for i, s in enumerate(suffix) if i <= m] if rest is not None else suffix[m:m + 1])
+        for k in possible:
+            r = accepts(sc, k)
+            if r:
+                return f"item {j}: {r}"
+    return None
 
 
 def accepts(schema: Any, kind: Any) -> Optional[str]:
@@ -121,6 +201,8 @@ def accepts(schema: Any, kind: Any) -> Optional[str]:
     base = kind[0] if isinstance(kind, tuple) else kind
     if not (base == st or (base == "integer" and st == "number")):
         return f"schema type {st!r} does not accept a JSON {base}"
+    if base == "array" and isinstance(kind, tuple) and len(kind) == 3:
+        return _accepts_layout(schema, kind[2])
     if base == "array" and "items" in schema and isinstance(schema["items"], dict):
         return accepts(schema["items"], kind[1])
     if base == "object" and isinstance(schema.get("additionalProperties"), dict):
@@ -133,6 +215,9 @@ EXTRA = [
     Entry("dict[date, int]", dict[datetime.date, int], "dict", "datekey"),
     Entry("tuple[int, *tuple[str, float], int]", tuple[int, typing.Unpack[tuple[str, float]], int], "unpacktuple", "fixed-inner"),
     Entry("tuple[*tuple[str, float]]", tuple[typing.Unpack[tuple[str, float]]], "unpacktuple", "fixed-inner"),
+    Entry("tuple[int, *tuple[str, *tuple[float, ...]]]", tuple[int, typing.Unpack[tuple[str, typing.Unpack[tuple[float, ...]]]]], "unpacktuple", "nested-variadic"),
+    Entry("tuple[int, *tuple[str, ...], float]", tuple[int, typing.Unpack[tuple[str, ...]], float], "unpacktuple", "variadic-middle"),
+    Entry("tuple[*tuple[int, str], *tuple[float, ...]]", tuple[typing.Unpack[tuple[int, str]], typing.Unpack[tuple[float, ...]]], "unpacktuple", "fixed-then-variadic"),
 ]
 
 
@@ -554,3 +639,22 @@ LEVEL_TEXT += _ADD15
 _ADD22 = ' Borrowed: R14.8 / R14.9 (no module-level caches shared by schema builds).'
 EXPLANATION += _ADD22
 LEVEL_TEXT += _ADD22
+
+
+_run_before_r5 = run
+
+
+def run(repo, rep, tier):  # noqa: F811 -- round-5 shape rules appended to the rules above
+    _run_before_r5(repo, rep, tier)
+    if getattr(rep, "borrowed", False):
+        return
+    from ..core import round5 as _r5
+    _r5.nonempty_schema_arrays(repo, rep, "R20.9")
+    _r5.override_consulted_first(repo, rep, "R06.14")
+    _r5.annotation_scans(repo, rep, "R09.8")
+    rep.floor("R09.8", 20)
+
+
+_ADDR5B = ' Borrowed: R20.9 (schemaArray keywords never empty); R06.1 also compares tuple layouts with Unpack members position by position (prefix, variable part, suffix; minItems / maxItems against the shortest / longest serialized form); R06.14: packer, unpacker and schema creators for overridden serialization consult the override look-up before anything else (no type family is exempted on one side only); R09.8: isinstance tests for the Annotated markers (Alias, Discriminator, JSON Schema constraints) are applied to the variable of a scan over the whole metadata sequence, so a marker is honoured at any position.'
+EXPLANATION += _ADDR5B
+LEVEL_TEXT += _ADDR5B
